@@ -139,6 +139,7 @@ def checkpointUpdate (r : GitRepo) (old : Option Checkpoint) (id : Option Nat) (
 
 inductive CkOp where
   | update (id : Option Nat) (pending : Bool)
+  | updateUnborn (pending : Bool)   -- `update` without `--id` while HEAD resolves to no commit: fails
   | delete
   | outDeleteAll
 deriving Repr, DecidableEq
